@@ -18,6 +18,8 @@ Definition ofr_eqb : option ffr -> option ffr -> bool := opt_eqb frame_eqb.
 
 Definition feq : float -> float -> bool := PrimFloat.eqb.
 Definition flt : float -> float -> bool := PrimFloat.ltb.
+(** the Python literal [1e-9] *)
+Definition tol9 : float := 0x1.12e0be826d695p-30%float.
 
 Definition chk_swap (fr : ffr) (from to : Z) (c1 c2 : cref) (exp : option ffr) : bool :=
   ofr_eqb (call_swap String.eqb fr from to c1 c2) exp.
@@ -65,7 +67,7 @@ Definition optfl_eqb : option (list float) -> option (list float) -> bool := opt
 Definition chk_pdist (fr : ffr) (from to : Z) (c : cref) (cp : dict NumFloat)
   (exp_p : option (list float)) : bool :=
   match exp_p, resolve String.eqb fr c with
-  | Some p, Some i => optfl_eqb (p_distribution NumFloat from to i cp (rows_of fr)) (Some p)
+  | Some p, Some i => optfl_eqb (p_distribution NumFloat tol9 from to i cp (rows_of fr)) (Some p)
   | Some _, None => false
   | None, _ => true
   end.
@@ -83,12 +85,12 @@ Definition positions_okb (fr : ffr) (from to : Z) (c : cref) (positions : list Z
   end.
 Definition chk_label_probability (fr : ffr) (from to : Z) (c : cref) (cp : dict NumFloat)
   (positions : list Z) (exp_p : option (list float)) (exp : option ffr) : bool :=
-  ofr_eqb (call_label_probability NumFloat String.eqb fr from to c cp positions) exp
+  ofr_eqb (call_label_probability NumFloat String.eqb tol9 fr from to c cp positions) exp
   && chk_pdist fr from to c cp exp_p
   && match exp with Some _ => positions_okb fr from to c positions | None => true end.
 Definition chk_label_dirichlet (fr : ffr) (from to : Z) (c : cref) (keys dir : list float)
   (positions : list Z) (exp_p : option (list float)) (exp : option ffr) : bool :=
-  ofr_eqb (call_label_dirichlet NumFloat String.eqb fr from to c keys dir positions) exp
+  ofr_eqb (call_label_dirichlet NumFloat String.eqb tol9 fr from to c keys dir positions) exp
   && chk_pdist fr from to c (combine keys dir) exp_p
   && match exp with Some _ => positions_okb fr from to c positions | None => true end.
 
